@@ -50,7 +50,7 @@ def recipe(c: Check):
     need(c, "connwrap", ["NW_GUARDED"])
     c.run_driver("release", q(c.tier, 130, 1200), shards=q(c.tier, 8, 16), timeout=q(c.tier, 600, 3000))
     need(c, "release", ["NB_OK", "NB_QUOTA", "NB_EXISTS", "NB_ACQERR", "NB_LISTENFAIL", "NB_CONFLICT_ROLLBACK",
-                        "NB_CONFLICT_FIRST", "NB_GROUP_REFUSED", "NB_ADDRACE", "NB_REPEATED", "NB_CLOSE",
+                        "NB_CONFLICT_FIRST", "NB_GROUP_REFUSED", "NB_ADDRACE", "NB_CLOSE",
                         "NB_END_WITH_PROXIES", "NB_GROUP_JOIN", "NB_GROUP_LAST_LEAVE", "NB_END_WITH_POOL"])
     st = c.run_driver("cycles", 30, shards=1, timeout=600)
     if st:
